@@ -220,3 +220,17 @@ add("C18",
     shards={"quick": 16, "thorough": 16},
     require_counts=["accepted", "refused", "smoke_runs", "prune_limit_ok", "init_cases"],
     )
+
+add("C14",
+    engine="ENUM",
+    level="exploration",
+    technique="bounded exhaustive enumeration of destination pre-states (single and pairwise mutations of the snapshot content, extras) x restore options on a real file system, plus hostile node names",
+    design_ref="DESIGN.md §4.5, §5 C14",
+    level_text="Three snapshots (multi-blob file, empty file, nested dirs, symlink, hardlink pair, executable; all-zero and holey files, empty dir; dangling absolute symlink, deep path) are restored with the real prepare_restore/restore into tmpfs destinations "
+               "built from the snapshot content by every single mutation {absent, same size+mtime other bytes, same size other mtime, truncated, longer, wrong type file/dir/symlink, symlink pointing outside, mode changed} of every path, pairs of mutations, "
+               "with and without extra entries, under all 16 combinations of delete x verify-existing x sparse x no-ownership. Afterwards every snapshot path must hold the snapshot's type, bytes, link target, mode and mtime (hardlinks share an inode) in the cases the statement covers, "
+               "extras must be gone iff delete was requested and untouched otherwise, and a digest of everything in the sandbox outside the destination must be unchanged. Nine hostile stored node names (.., ../x, a/../../.., absolute, a/b, ., empty, ...) as file and directory must not touch anything outside.",
+    level_note="Runs as root on tmpfs: ownership, xattrs and device nodes are not explored.",
+    shards={"quick": 16, "thorough": 16},
+    require_counts=["held", "hostile_name_cases"],
+    )
